@@ -271,6 +271,19 @@ def cases(tier):
     if not q:
         spaces.append((DocSpace(QUICK_SCALARS[:6], QUICK_KEYS[:2], 3), 5))
     idx = 0
+    # mappings whose keys are renamed (same-length and different-length renames, with a second pair competing in the
+    # matcher): the shape in which key edits, value edits and whole-pair removals/insertions are all in play
+    keys = ('id', 'no', 'a') if q else ('id', 'no', 'a', 'idx')
+    vals = (1, 'ab', ['a', 'b', 'c']) if q else (1, [], 'ab', ['a', 'b', 'c'], None)
+    docs = []
+    for combo in itertools.product((None,) + tuple(range(len(vals))), repeat=len(keys)):
+        docs.append({k: vals[i] for k, i in zip(keys, combo) if i is not None})
+    for a in docs:
+        for b in docs:
+            for ds in DICT_STRATEGIES:
+                for layout in (LAYOUTS if not q else (LAYOUTS[0], LAYOUTS[3])):
+                    yield idx, {'a': a, 'b': b, 'ds': ds, 'layout': list(layout)}
+                    idx += 1
     for space, bud in spaces:
         for a, b in space.pairs(bud):
             has_d = pairspace.has_dict(a) or pairspace.has_dict(b)
